@@ -76,33 +76,13 @@ func (e *env) bounded(opName string, input func() any, size int, fn func(ctx con
 		return nil, errSkipped
 	}
 	d := e.ceiling(size)
-	start := time.Now()
-	ctx, cancel := context.WithTimeout(context.Background(), d)
-	defer cancel()
-	ch := make(chan callOut, 1)
-	go func() {
-		defer func() {
-			if r := recover(); r != nil {
-				ch <- callOut{nil, fmt.Errorf("panic: %v", r)}
-			}
-		}()
-		v, err := fn(ctx)
-		ch <- callOut{v, err}
-	}()
-	wd := time.NewTimer(d + watchdogGrace)
-	defer wd.Stop()
-	var how string
-	var observed any
-	select {
-	case r := <-ch:
-		if r.err == nil || ctx.Err() == nil {
-			return r.view, r.err
-		}
-		how = "returned only because its deadline expired"
-		observed = map[string]any{"error": shorten(r.err.Error()), "after_s": round1(time.Since(start))}
-	case <-wd.C:
-		how = "did not return at all: its context expired and it still did not come back (stopped by the watchdog)"
-		observed = map[string]any{"error": "no return", "after_s": round1(time.Since(start))}
+	v, err, how, took := runBounded(context.Background(), d, fn)
+	if how == "" {
+		return v, err
+	}
+	observed := map[string]any{"error": "no return", "after_s": round1(took)}
+	if err != nil {
+		observed["error"] = shorten(err.Error())
 	}
 	// ---- a failing input
 	e.timeouts++
@@ -126,7 +106,7 @@ func (e *env) bounded(opName string, input func() any, size int, fn func(ctx con
 			Input: map[string]any{"mode": e.mode, "op": opName}, Observed: err.Error()})
 	}
 	if ctl != nil && !e.dead {
-		observed.(map[string]any)["control"] = ctl()
+		observed["control"] = ctl()
 	}
 	e.c.Violate(hk.Violation{Fingerprint: "content:" + e.mode + ":call-never-returns:" + opName,
 		What: "the value a handler returned never reached the caller: " + opName + " " + how + " (deadline " + d.String() + "; an ordinary call takes milliseconds)",
@@ -134,6 +114,35 @@ func (e *env) bounded(opName string, input func() any, size int, fn func(ctx con
 		Expected: "the call returns the handler's value"})
 	e.lastNever = true
 	return nil, errNever
+}
+
+// runBounded: fn under a context with deadline d and under a watchdog. how != "" : the call never returned (watchdog) or
+// returned an error only after its deadline had expired.
+func runBounded(parent context.Context, d time.Duration, fn func(ctx context.Context) (any, error)) (v any, err error, how string, took time.Duration) {
+	start := time.Now()
+	ctx, cancel := context.WithTimeout(parent, d)
+	defer cancel()
+	ch := make(chan callOut, 1)
+	go func() {
+		defer func() {
+			if r := recover(); r != nil {
+				ch <- callOut{nil, fmt.Errorf("panic: %v", r)}
+			}
+		}()
+		v, err := fn(ctx)
+		ch <- callOut{v, err}
+	}()
+	wd := time.NewTimer(d + watchdogGrace)
+	defer wd.Stop()
+	select {
+	case r := <-ch:
+		if r.err == nil || ctx.Err() == nil || parent.Err() != nil {
+			return r.view, r.err, "", time.Since(start)
+		}
+		return nil, r.err, "returned only because its deadline expired", time.Since(start)
+	case <-wd.C:
+		return nil, nil, "did not return at all: its context expired and it still did not come back (stopped by the watchdog)", time.Since(start)
+	}
 }
 
 func round1(d time.Duration) float64 { return float64(int(d.Seconds()*10+0.5)) / 10 }
